@@ -39,7 +39,10 @@ FILENAMES = ["f.txt", "my file.bin", 'q"uote.png', "se;mi.txt", "b\\s.txt",
              "", ""]
 CTYPES = [None, None, "text/plain", "application/octet-stream", "image/png",
           "text/plain; charset=utf-8", "application/x-custom+json",
-          "Text/Plain"]
+          "Text/Plain",
+          # a part may name a charset of its own; the encoder wrote UTF-8
+          "text/plain; charset=iso-8859-2", "text/plain; charset=x-mac-ce",
+          'text/plain; charset="latin1"']
 MAXLINE = 1 << 16
 BUFSIZE = 8192
 
